@@ -444,3 +444,10 @@ func init() {
 		mutant{Name: "shift-folder-answers-large-counts-itself", Prop: "C03", File: "interp/op.go", Old: "\t\tv := constant.Shift(vConstantValue(v0), token.SHR, uint(vUint(v1)))\n", New: "\t\tv := shiftOut(vConstantValue(v0), vUint(v1))\n", Also: [][3]string{{"interp/op.go", "func shrConst(n *node) {\n", "func shiftOut(x constant.Value, s uint64) constant.Value {\n\tif s >= uint64(constant.BitLen(x)) {\n\t\treturn constant.MakeInt64(0)\n\t}\n\treturn constant.Shift(x, token.SHR, uint(s))\n}\n\nfunc shrConst(n *node) {\n"}}, Rule: "R03.21", Key: "shrConst/exact-result-from-go-constant:shiftOut"},
 	)
 }
+
+func init() {
+	addMutants(
+		// D112 reverted
+		mutant{Name: "routine-read-from-the-ancestor-frame", Prop: "C19", File: "interp/debugger.go", Old: "\tf.debug.g = dbg.routineOf(f.anc)\n", New: "\tf.debug.g = f.anc.debug.g\n", Rule: "R19.15", Key: "Debugger.enterCall/ancestor-debug-data-not-assumed"},
+	)
+}
